@@ -10,7 +10,7 @@
    (rio_xml 0.8.6 formatter.rs), and the two readers: strict = false is rio_xml's parser over
    quick-xml (unesc, no normalisation, whitespace-only text dropped), strict = true is XML 1.0
    (Char, 2.11, 3.3.3, references) + Namespaces + RDF/XML for the vocabulary the formatter uses. *)
-From Sophia.C18 Require Import Model Proofs Paths PathsProofs Iris IrisProofs.
+From Sophia.C18 Require Import Model Proofs Paths PathsProofs Iris IrisProofs Refuse RefuseProofs.
 
 (* ---- (1) escaping and its inverse (quick-xml / XML 1.0) ---- *)
 Check (rio_unescape_escape : forall s : str, rio_unescape (escape s) = Some s).
@@ -160,6 +160,31 @@ Check ws_only_literal_refuted. Check bnode_digit_refuted. Check rdf_li_refuted.
 Check unsplittable_predicate_refuted. Check cr_literal_refuted. Check illegal_char_written.
 Check quoted_subject_fails. Check quoted_object_fails. Check generalised_skipped.
 
+(* ---- (9) what must be REFUSED, stated on the XML grammar (C18/Refuse.v); lexical check of the bytes ---- *)
+(* a predicate can be a property element iff it is a non-empty namespace name followed by an NCName ... *)
+Check (writable_spec : forall p : str,
+  writable p = true <-> exists ns loc, p = ns ++ loc /\ ns <> [] /\ is_ncname loc = true).
+(* ... which is what Rio's split finds, exactly, on every IRI (it has a ':') *)
+Check (has_local_writable : forall p : str, has_local p = true -> writable p = true).
+Check (writable_has_local : forall p : str, existsb brk p = true -> writable p = true -> has_local p = true).
+Check (check_pred_grammar : forall p : str, has 58 p = true -> check_pred p = negb (unwritable_pred p)).
+Check (must_refuse_format : forall t, must_refuse t = true ->
+  exists n p o, convert t = CRio (SNode n) p (OObj o) /\ guard_format true (SNode n) p (OObj o) = FErr SerErrInput).
+(* a graph holding a triple without QName / with a reserved name / with text outside Char is never answered with a
+   document -- whatever its subject (renamed or not), whatever precedes or follows, whatever the indentation *)
+Check (refuse_sound : forall g, existsb must_refuse g = true -> forall k d, serialize true k g <> SerOk d).
+Check (refuse_input : forall g, forallb flat3 g = true -> existsb must_refuse g = true ->
+  forall k, serialize true k g = SerErrInput).
+Check (refuse_complete : forall k g, forallb flat3 g = true -> existsb must_refuse g = false ->
+  forallb (fun t => match t with (_, Iri p, _) => has 58 p | _ => true end) g = true ->
+  exists d, serialize true k g = SerOk d).
+Check (ser_ok_refuse_ok : forall guard k g o, ser_ok guard k g o = true -> refuse_ok guard g o = true).
+Check (ncname_qname : forall l : str, is_ncname l = true -> is_qname l = true).
+Check (expressible_names : forall t, expressible t = true ->
+  forall cur, forallb event_names_ok (fmt_triple cur t) = true).
+Check (tags_ok_text : forall s : str, has 60 s = false -> tags_ok s = true).
+Check not_qnames. Check wf_ok_examples. Check must_refuse_examples.
+
 Print Assumptions rio_unescape_escape.
 Print Assumptions unesc_escape_app.
 Print Assumptions unescape_norm_escape_text.
@@ -228,3 +253,18 @@ Print Assumptions rfc3986_examples.
 Print Assumptions shapes_graph_in_class.
 Print Assumptions shapes_graph_roundtrip.
 Print Assumptions relative_example.
+Print Assumptions writable_spec.
+Print Assumptions has_local_writable.
+Print Assumptions writable_has_local.
+Print Assumptions check_pred_grammar.
+Print Assumptions must_refuse_format.
+Print Assumptions refuse_sound.
+Print Assumptions refuse_input.
+Print Assumptions refuse_complete.
+Print Assumptions ser_ok_refuse_ok.
+Print Assumptions ncname_qname.
+Print Assumptions expressible_names.
+Print Assumptions tags_ok_text.
+Print Assumptions not_qnames.
+Print Assumptions wf_ok_examples.
+Print Assumptions must_refuse_examples.
